@@ -151,3 +151,34 @@ def ends_with(e: ast.AST, suffix: str) -> Optional[bool]:
             return None if (a is not False and b is not False) else False
         return a and b
     return None
+
+
+def expand_names(d, e, depth=4):
+    """[e] + the values of the local names e mentions (names with exactly one plain assignment in def d),
+    transitively: lets a recogniser read through temporaries (`ok = bool(gap < EPS)`; `gap = norm(...)`)."""
+    import ast as _ast
+    from .model import own_nodes, norm_src
+    out, seen, todo = [e], set(), [(e, depth)]
+    while todo:
+        x, k = todo.pop()
+        if k == 0:
+            continue
+        for n in _ast.walk(x):
+            if isinstance(n, _ast.Name) and n.id not in seen:
+                seen.add(n.id)
+                asg = []
+                for a in own_nodes(d):
+                    if isinstance(a, _ast.Assign) and len(a.targets) == 1:
+                        t = a.targets[0]
+                        if isinstance(t, _ast.Name) and t.id == n.id:
+                            asg.append(a.value)
+                        elif isinstance(t, (_ast.Tuple, _ast.List)) and any(isinstance(z, _ast.Name) and z.id == n.id for z in t.elts):
+                            asg.append(a.value)
+                    elif isinstance(a, _ast.AnnAssign) and a.value is not None and isinstance(a.target, _ast.Name) and a.target.id == n.id:
+                        asg.append(a.value)
+                    elif isinstance(a, _ast.NamedExpr) and a.target.id == n.id:
+                        asg.append(a.value)
+                if len(asg) == 1:
+                    out.append(asg[0])
+                    todo.append((asg[0], k - 1))
+    return out
